@@ -216,7 +216,7 @@ const (
 
 var fasterJson = jsoniter.ConfigCompatibleWithStandardLibrary
 
-func ParseTransactionError(v any) (map[string]any, error) {
+func ParseTransactionError(v any) (any, error) {
 	// TODO: if any of the following fails, return the original value.
 	// marshal to json
 	b, err := fasterJson.Marshal(v)
@@ -250,11 +250,6 @@ func ParseTransactionError(v any) (map[string]any, error) {
 		if err != nil {
 			return nil, err
 		}
-		// TODO: is this uint8 or uvarint or something else?
-		errorCode, err := dec.ReadUint8()
-		if err != nil {
-			return nil, err
-		}
 		transactionErrorTypeName, ok := TransactionErrorType_name[int32(transactionErrorType)]
 		if !ok {
 			return nil, fmt.Errorf("unknown transaction error type: %d", transactionErrorType)
@@ -263,6 +258,11 @@ func ParseTransactionError(v any) (map[string]any, error) {
 
 		switch TransactionErrorType(transactionErrorType) {
 		case TransactionErrorType_INSTRUCTION_ERROR:
+			// InstructionError(instruction index: u8, InstructionError)
+			errorCode, err := dec.ReadUint8()
+			if err != nil {
+				return nil, err
+			}
 
 			instructionErrorType, err := dec.ReadUint32(bin.LE)
 			if err != nil {
@@ -303,21 +303,31 @@ func ParseTransactionError(v any) (map[string]any, error) {
 					},
 				}, nil
 			default:
-				return nil, fmt.Errorf("unknown instruction error type: %d", instructionErrorType)
+				// every other instruction error carries nothing: {"InstructionError":[index,"InvalidAccountData"]}
+				return map[string]any{
+					transactionErrorTypeName: []any{
+						errorCode,
+						instructionErrorTypeName,
+					},
+				}, nil
 			}
-
-			return map[string]any{
-				transactionErrorTypeName: []any{
-					errorCode,
-					instructionErrorTypeName,
-				},
-			}, nil
+		case TransactionErrorType_DUPLICATE_INSTRUCTION:
+			// DuplicateInstruction(u8)
+			index, err := dec.ReadUint8()
+			if err != nil {
+				return nil, err
+			}
+			return map[string]any{transactionErrorTypeName: index}, nil
+		case TransactionErrorType_INSUFFICIENT_FUNDS_FOR_RENT, TransactionErrorType_PROGRAM_EXECUTION_TEMPORARILY_RESTRICTED:
+			// InsufficientFundsForRent { account_index: u8 }, ProgramExecutionTemporarilyRestricted { account_index: u8 }
+			index, err := dec.ReadUint8()
+			if err != nil {
+				return nil, err
+			}
+			return map[string]any{transactionErrorTypeName: map[string]any{"account_index": index}}, nil
 		default:
-			return map[string]any{
-				transactionErrorTypeName: []any{
-					errorCode,
-				},
-			}, nil
+			// a unit variant (AccountInUse, BlockhashNotFound, ...): nothing follows the discriminant
+			return transactionErrorTypeName, nil
 		}
 	}
 }
